@@ -18,10 +18,87 @@ import warnings
 
 SIGS = {"int": signal.SIGINT, "term": signal.SIGTERM, "kill": signal.SIGKILL}
 
+# ---- observation / scheduling aids installed in every member ---------------------------------------
+# LAUNCHED: pids of the tracker processes this member launched, in launch order (recorded by a wrapper
+# around `resource_tracker.spawnv_passfds`).  SLOW: optional delays (seconds) added to that launch and to
+# the liveness probe `_check_alive`: they only widen the windows between the probe, the launch and the
+# assignment of `_fd/_pid`, they change nothing else.  IMPORT: what the re-imported main module did at
+# import time in a `loky_init_main` child (see tt_root).
+LAUNCHED = []
+SLOW = {"spawn": 0.0, "probe": 0.0}
+IMPORT = {}
+IMPORT_OBJS = {}
+_installed = []
+
 
 def _rt():
-    from loky.backend import resource_tracker
-    return resource_tracker
+    import loky.backend.resource_tracker  # noqa: F401  (loky.backend binds some names to other modules)
+    return sys.modules["loky.backend.resource_tracker"]
+
+
+def _syn():
+    import loky.backend.synchronize  # noqa: F401
+    return sys.modules["loky.backend.synchronize"]
+
+
+def install():
+    """idempotent: recorder around the tracker launch, optional delays"""
+    if _installed:
+        return
+    _installed.append(True)
+    rt = _rt()
+    orig_spawn = rt.spawnv_passfds
+
+    def spawnv_passfds(*a, **kw):
+        if SLOW["spawn"]:
+            time.sleep(SLOW["spawn"])
+        pid = orig_spawn(*a, **kw)
+        LAUNCHED.append(pid)
+        if SLOW["spawn"]:
+            time.sleep(SLOW["spawn"])
+        return pid
+    rt.spawnv_passfds = spawnv_passfds
+    orig_probe = rt.ResourceTracker._check_alive
+
+    def _check_alive(self):
+        r = orig_probe(self)
+        if SLOW["probe"]:
+            time.sleep(SLOW["probe"])
+        return r
+    rt.ResourceTracker._check_alive = _check_alive
+
+
+def drain_launched():
+    out = list(LAUNCHED)
+    del LAUNCHED[:]
+    return out
+
+
+def import_time_op():
+    """called by the main module (tt_root) while it is re-imported as `__mp_main__` in a loky_init_main child:
+    performs the tracked operation the scenario asked for, *at import time*, and records which tracker the
+    child was using at that moment"""
+    spec = os.environ.pop("TT_IMPORT_OP", None)
+    if not spec:
+        return
+    spec = json.loads(spec)
+    install()
+    rep = {"kind": spec["kind"], "ok": True, "trk_before": trk()}
+    try:
+        with warnings.catch_warnings(record=True) as ws:
+            warnings.simplefilter("always")
+            if spec["kind"] == "file":
+                _rt().register(spec["path"], "file")
+            else:
+                o = make_prim("Lock")
+                IMPORT_OBJS[str(spec["o"])] = o
+                rep["names"] = sem_names(o)
+        rep["warnings"] = [str(w.message)[:160] for w in ws]
+    except BaseException as e:
+        rep.update(ok=False, exc=type(e).__name__, msg=str(e)[:200])
+    rep["trk"] = trk()
+    rep["launched"] = list(LAUNCHED)
+    IMPORT.update(rep)
 
 
 def trk():
@@ -129,9 +206,12 @@ class Member:
     def __init__(self, sockpath, mid, copies):
         self.sockpath = sockpath
         self.mid = mid
+        install()
         self.objs = dict(copies or {})
         if copies:
             copies.clear()        # the Process object keeps its args: do not let it keep the copies alive
+        self.objs.update(IMPORT_OBJS)     # objects the main module created at import time
+        IMPORT_OBJS.clear()
         self.children = {}
         self.execs = {}
         self.futs = {}
@@ -147,7 +227,8 @@ class Member:
     def serve(self):
         self.send({"hello": self.mid, "pid": os.getpid(), "ppid": os.getppid(), "trk": trk(),
                    "main": getattr(sys.modules.get("__main__"), "__name__", None),
-                   "mp_main": "__mp_main__" in sys.modules})
+                   "mp_main": "__mp_main__" in sys.modules, "import": dict(IMPORT) or None,
+                   "launched": drain_launched()})
         while True:
             line = self.f.readline()
             if not line:
@@ -165,6 +246,7 @@ class Member:
                     rep = {"ok": False, "exc": type(e).__name__, "msg": str(e)[:200]}
             rep["warnings"] = [str(w.message)[:160] for w in ws]
             rep["trk"] = trk()
+            rep["launched"] = drain_launched()
             if how is None:
                 self.send(rep)
                 continue
@@ -189,6 +271,44 @@ class Member:
         th.join(timeout)
         return th.is_alive()
 
+    @staticmethod
+    def in_threads(fns, rep, slow=None, timeout=240):
+        """run the functions in len(fns) fresh threads, released together; per thread: exception, tracker seen
+        right after the operation"""
+        n = len(fns)
+        bar = threading.Barrier(n) if n > 1 else None
+        errors, trks = [], [None] * n
+
+        late = []
+
+        def body(i):
+            try:
+                if bar is not None:
+                    try:
+                        bar.wait(120)
+                    except threading.BrokenBarrierError:
+                        late.append(i)           # a missed deadline of the harness, not an observation
+                        return
+                fns[i]()
+            except BaseException as e:
+                errors.append("%s: %s" % (type(e).__name__, str(e)[:160]))
+            trks[i] = trk()
+        old = dict(SLOW)
+        if slow:
+            SLOW.update(slow)
+        try:
+            ts = [threading.Thread(target=body, args=(i,), name="tt-op-%d" % i) for i in range(n)]
+            for t in ts:
+                t.start()
+            for t in ts:
+                t.join(timeout)
+            hung = [t.name for t in ts if t.is_alive()]
+        finally:
+            SLOW.update(old)
+        rep["errors"] = errors
+        rep["thr_trks"] = trks
+        rep["hung"] = hung + ["barrier-%d" % i for i in late]
+
     # ------------------------------------------------------------------ commands
     def handle(self, cmd, rep):
         c = cmd["cmd"]
@@ -201,14 +321,49 @@ class Member:
             ctx = get_context(cmd["method"])
             copies = {str(o2): self.objs[str(o)] for o, o2 in cmd.get("pass", [])}
             p = ctx.Process(target=member_main, args=(self.sockpath, cmd["child"], copies))
-            p.start()
+            if cmd.get("import"):
+                # the child inherits the environment: its main module finds the request while it is re-imported
+                os.environ["TT_IMPORT_OP"] = json.dumps(cmd["import"])
+            try:
+                p.start()
+            finally:
+                os.environ.pop("TT_IMPORT_OP", None)
             self.children[cmd["child"]] = p
             rep["pid"] = p.pid
         elif c == "op":
             fn = {"register": rt.register, "unregister": rt.unregister, "maybe_unlink": rt.maybe_unlink}[cmd["op"]]
-            fn(cmd["path"], "file")
+            if cmd.get("thread") == "pool":
+                # ... by a worker thread of a thread pool (concurrent.futures executor)
+                from concurrent.futures import ThreadPoolExecutor
+                with ThreadPoolExecutor(max_workers=1) as tp:
+                    tp.submit(fn, cmd["path"], "file").result(240)
+            elif cmd.get("thread"):
+                # the operation (hence a possible tracker launch) is done by a thread other than the main thread
+                self.in_threads([lambda: fn(cmd["path"], "file")], rep)
+                if rep.get("errors"):
+                    raise RuntimeError("thread: " + rep["errors"][0])
+            else:
+                fn(cmd["path"], "file")
             if cmd.get("sig"):
                 os.kill(rt._resource_tracker._pid, SIGS[cmd["sig"]])
+        elif c == "pop":
+            # k threads do a tracked operation at the same time (released together by a barrier)
+            fn = {"register": rt.register, "unregister": rt.unregister, "maybe_unlink": rt.maybe_unlink}[cmd["op"]]
+            self.in_threads([(lambda pth=pth: fn(pth, "file")) for pth in cmd["paths"]], rep, slow=cmd.get("slow"))
+        elif c == "pnew":
+            made = {}
+
+            def mk(o):
+                made[o] = make_prim(cmd["kind"])
+            self.in_threads([(lambda o=o: mk(o)) for o in cmd["os"]], rep, slow=cmd.get("slow"))
+            rep["names"] = []
+            rep["names_of"] = {}
+            for o in cmd["os"]:
+                if o in made:
+                    self.objs[str(o)] = made[o]
+                    rep["names_of"][str(o)] = sem_names(made[o])
+                    rep["names"] += rep["names_of"][str(o)]
+            made.clear()
         elif c == "mkfile":
             with open(cmd["path"], "w") as f:
                 f.write("x")
@@ -226,6 +381,35 @@ class Member:
             from loky.backend import synchronize
             synchronize.resource_tracker.register = die
             make_prim("Lock")
+        elif c in ("killfin", "killexit"):
+            # SIGKILL arriving inside a SemLock finalizer, after `k` of its clean-up primitives (`sem_unlink`,
+            # `resource_tracker.unregister`) have completed, whatever their order in the code
+            k = cmd["k"]
+            done = [0]
+
+            def die():
+                os.kill(os.getpid(), signal.SIGKILL)
+                time.sleep(60)
+
+            def wrap(fn):
+                def w(*a, **kw):
+                    if done[0] >= k:
+                        die()
+                    r = fn(*a, **kw)
+                    done[0] += 1
+                    return r
+                return w
+            syn = _syn()
+            self.send({"ok": True, "warnings": [], "trk": trk(), "launched": drain_launched(),
+                       "names": sem_names(self.objs.get(str(cmd.get("o")))) if c == "killfin" else []})
+            syn.sem_unlink = wrap(syn.sem_unlink)
+            rt.unregister = wrap(rt.unregister)
+            if c == "killexit":
+                return "normal"          # util._exit_function runs the finalizers: the k-th primitive kills
+            o = self.objs.pop(str(cmd["o"]))
+            del o
+            gc.collect()
+            die()                        # every primitive of this collection has completed (or there was none)
         elif c == "del":
             o = self.objs.pop(str(cmd["o"]))
             del o
